@@ -853,6 +853,12 @@ theorem erase_div_calculus (hI : I * I = -1) {p : ZPoly} (hg : Good p) (hz : Num
 theorem erase_call (hI : I * I = -1) {p : ZPoly} (hz : NumZ p.zero) (v : PyNum) (h : Horner) :
     valOf I (callZ p v h) = call (erase I p) (num I v) h := valOf_callZ hI hz v h
 
+/-- **C07.11f'** composition `p(q)` of two Polys: when the spelled model answers (`.ok`: no exception from a
+    power `q ** k`), the answer erases to the field model's `compose` on the erasures —
+    the summands carry the zero of `q`, the final cast the zero of `p`; both numeric zeros. -/
+theorem erase_compose (hI : I * I = -1) {p q r : ZPoly} (hg : Good q) (hzp : NumZ p.zero) (hzq : NumZ q.zero)
+    (h : composeZ p q = .ok r) : erase I r = compose (erase I p) (erase I q) := erase_composeZ hI hg hzp hzq h
+
 /-- `p.values()` (and `order`, AttributeError included) -/
 theorem erase_values (hI : I * I = -1) {p : ZPoly} (hz : NumZ p.zero) :
     (valuesZ p).map (List.map (valOf I)) = values (erase I p) := erase_valuesZ hI hz
@@ -1137,6 +1143,32 @@ theorem src_ne_is_model : py_ne = neZ := rfl
 
 theorem src_truediv_is_model : py_truediv = divZ := by funext p q; exact Src.truediv p q
 theorem src_truediv_num_is_model : py_truediv_num = divsZ := by funext p c; exact Src.truediv_num p c
+
+/-- `Poly.__pow__` with a number exponent (int / bool / float of integral value `n`): all its branches — exponent 0, the
+    empty Poly, one term (`k * other`, `1 if v == 1 else v ** other`, ZeroDivisionError of `0 ** negative`), and
+    `reduce(operator.mul, [self.copy()] * (other - 1) + [self])` (TypeError of a float count, the object `self` ITSELF for a
+    count `≤ 0`, the left-nested product otherwise).  Hypothesis: `p.copy()` has the contents of `p` (distinct powers, no
+    stored zero: every instance the constructor produced) — the source multiplies COPIES, the model `powLoopZ` multiplies
+    `p`; for an instance with a stored zero the two differ, and the model does not cover it. -/
+theorem src_pow_is_model (p : ZPoly) (n : Int) (ek : ExpKind) (hc : copyZ p none = p) :
+    Py.toPowRes (py_pow p n ek) = powZ p n ek := Src.pow p n ek hc
+
+/-- `Poly.__call__` on a number, for each value of the flag `horner` ("auto" / True / False): the empty Poly answers its
+    zero, `value == 0` answers `self[0]`, the Horner-like scheme (closure `horner_step`, `reduce` over the descending
+    terms, the final `value ** last_power`) and the direct sum over the ascending terms -/
+theorem src_call_is_model : py_call = callZ := by funext p v h; exact Src.call p v h
+
+/-- the hypothesis of `src_pow_is_model` is the representation invariant `Good` (distinct powers, no stored zero), which
+    every instance of a history has (`zval_good`) -/
+theorem src_pow_hyp_of_good {p : ZPoly} (h : Good p) : copyZ p none = p := by
+  obtain ⟨d, z⟩ := p
+  show (⟨compactZ z (ofPairs d), z⟩ : ZPoly) = ⟨d, z⟩
+  rw [ofPairs_of_nodup h.1]
+  unfold compactZ
+  rw [List.filter_eq_self.2 h.2]
+
+theorem src_pow_is_model_of_good {p : ZPoly} (h : Good p) (n : Int) (ek : ExpKind) :
+    Py.toPowRes (py_pow p n ek) = powZ p n ek := Src.pow p n ek (src_pow_hyp_of_good h)
 
 end Source
 
